@@ -15,12 +15,11 @@ func sizes(tier string) (lo, hi int) {
 }
 
 func runSeq(rep *explore.Report, prop, tier string) {
-	if ok, why := Guard(); !ok {
-		rep.Broken = "seat manager changed shape, state reconstruction through the public API is no longer faithful: " + why
-		return
-	}
 	lo, hi := sizes(tier)
-	faithful, why := BuildFaithful()
+	faithful, why := Guard()
+	if faithful {
+		faithful, why = BuildFaithful()
+	}
 	if !faithful {
 		rep.Set("accelerator", "state reconstruction through the exported setters is not faithful on this tree ("+why+"): every table size is explored by genuine replays instead (capped at 1.5M states per size), the sparse large tables are skipped")
 	}
